@@ -65,6 +65,17 @@ CLAIMED = {
             "Trusts the hand-written literal packer and integer arithmetic; reported address text is compared by "
             "re-packing, so any textual form of the same address is accepted.",
             "DESIGN.md 4/C20"),
+    "C11": ("HIST", "model_checking",
+            "explicit-state breadth-first search over operation histories replayed on the real container, to closure",
+            "BFS to closure of the canonical state space of container-operation histories {append, extend, pop, "
+            "cleanup, avps=, item assignment, update_key, update_avps, refresh} over a 4/5-letter AVP alphabet with "
+            "equal-valued twins, an unknown AVP and a Session-Id, on an empty message, a typed DWR and a typed S6a "
+            "ULR (quick ~20k states / 0.5M transitions; thorough ~115k states / 4.7M transitions); after every "
+            "transition view/list identity, membership, order against a list reference, Message Length.",
+            "List length capped at 3 (4 on a 3-letter alphabet in thorough); canonical form replaces object "
+            "identities by alphabet letters; an AVP object is never listed twice; the Grouped container is outside "
+            "the statement.",
+            "DESIGN.md 4/C11"),
     "C12": ("ENUM", "exploration",
             "bounded-exhaustive enumeration of request/answer pairs x result codes on the real decorate/route path",
             "25 typed request/answer pairs x boundary Result-Codes (all constants, x000/x001/x999 per family; every "
